@@ -6,8 +6,10 @@
    of one thread (CPython's GIL makes each of the modelled statements atomic):
 
    submitter j  (solve_low_level: executor.submit(future); future.result())
-       SCheck    `if self._shutdown.is_set(): raise ShutdownError()`   -- OUTSIDE the lock
+       SCheck    `if self._shutdown.is_set(): raise ShutdownError()`   -- outside the lock
        SAcquire  `with self._lock:`
+       SRecheck  `if self._shutdown.is_set(): raise ShutdownError()`   -- again, holding the lock
+       SUnlock   (flag was set) the exception leaves the `with`: the lock is released, submit raises
        SAppend   `self._futures.append(future)`
        SStart    `future.start()`  -> threading.Thread(target=run).start()
        SRelease  leaving the `with`; submit returns
@@ -23,10 +25,12 @@
        DSet      `self._shutdown.set()`
        wait=False: DAcquire `with self._lock, ThreadPoolExecutor()`; one cancel task per
                  registered future (DCancel pending, any order); leaving the `with`
-       wait=True:  DSnap `list(self._futures)` (no lock); DJoin: `future.result()` each --
-                 result() re-raises the future's `_exception`, and _join suppresses only
-                 CancelledError: the first failed / timed-out job makes shutdown() raise
-                 (DRaised) and the remaining futures are not waited for
+       wait=True:  DAcquire `with self._lock:` (in _join); DSnap `futures = list(self._futures)`;
+                 DUnlock leaving the `with`; DJoin: `future.result()` each, inside
+                 `contextlib.suppress(Exception)`: result() blocks until the future is finished
+                 and re-raises its `_exception` (TimeoutExpired, a Popen error), which is
+                 suppressed -- every future of the snapshot is waited for, shutdown() never
+                 raises (label LSdRaise is never enabled)
    PopenFuture.cancel(): `if not self.is_running(): return` -- a no-op while
    `self.process is None` or after the process has terminated; otherwise kills it.  *)
 From Coq Require Import List Arith Bool.
@@ -35,11 +39,11 @@ Import ListNotations.
 
 Inductive exn := ETimeout | EOther.
 Inductive proc_t := PNone | PRun | PDead.   (* self.process: None / running / terminated *)
-Inductive spc_t := SCheck | SAcquire | SAppend | SStart | SRelease | SWait
-                 | SGot (v : verdict) | SRejected.
+Inductive spc_t := SCheck | SAcquire | SRecheck | SAppend | SStart | SRelease | SWait
+                 | SGot (v : verdict) | SUnlock | SRejected.
 Inductive wpc_t := WNew | WStarted | WComm | WFinally | WSetRes | WDone.
 Inductive dpc_t := DSet | DAcquire | DCancel (pending : list nat) | DSnap
-                 | DJoin (pending : list nat) | DDone | DRaised.
+                 | DUnlock (pending : list nat) | DJoin (pending : list nat) | DDone.
 Inductive owner := OSub (j : nat) | OSd (k : nat).
 
 Record job := mkJob {
@@ -145,12 +149,6 @@ Definition finished (st : state) (j : nat) : bool :=   (* Future._state == FINIS
   | None => false
   end.
 
-Definition failed (st : state) (j : nat) : bool :=     (* future._exception is not None *)
-  match nth_error (jobs st) j with
-  | Some jb => match exc jb with Some _ => true | None => false end
-  | None => false
-  end.
-
 (* ---- the step function -------------------------------------------------------- *)
 Definition step (st : state) (l : label) : option state :=
   match l with
@@ -161,9 +159,17 @@ Definition step (st : state) (l : label) : option state :=
   | LSubAcquire j =>
       if is_free (lock st) then
         on_job (with_lock st (Some (OSub j))) j (fun jb => match spc jb with
-          | SAcquire => Some (set_spc jb SAppend)
+          | SAcquire => Some (set_spc jb SRecheck)
           | _ => None end)
       else None
+  | LSubRecheck j =>
+      on_job st j (fun jb => match spc jb with
+        | SRecheck => Some (set_spc jb (if flag st then SUnlock else SAppend))
+        | _ => None end)
+  | LSubUnlock j =>
+      on_job (with_lock st None) j (fun jb => match spc jb with
+        | SUnlock => Some (set_spc jb SRejected)
+        | _ => None end)
   | LSubAppend j =>
       on_job (with_reg st (reg st ++ [j])) j (fun jb => match spc jb with
         | SAppend => Some (set_spc jb SStart)
@@ -212,12 +218,13 @@ Definition step (st : state) (l : label) : option state :=
         | _ => None end)
   | LSdSet k =>
       on_sd st k (fun s => match dpc s with
-        | DSet => Some (mkSd (swait s) (if swait s then DSnap else DAcquire), with_flag st true)
+        | DSet => Some (mkSd (swait s) DAcquire, with_flag st true)
         | _ => None end)
   | LSdAcquire k =>
       if is_free (lock st) then
         on_sd st k (fun s => match dpc s with
-          | DAcquire => Some (mkSd (swait s) (DCancel (reg st)), with_lock st (Some (OSd k)))
+          | DAcquire => Some (mkSd (swait s) (if swait s then DSnap else DCancel (reg st)),
+                              with_lock st (Some (OSd k)))
           | _ => None end)
       else None
   | LSdCancel k j =>
@@ -234,18 +241,18 @@ Definition step (st : state) (l : label) : option state :=
         | _ => None end)
   | LSdSnap k =>
       on_sd st k (fun s => match dpc s with
-        | DSnap => Some (mkSd (swait s) (DJoin (reg st)), st)
+        | DSnap => Some (mkSd (swait s) (DUnlock (reg st)), st)
+        | _ => None end)
+  | LSdRelease k =>
+      on_sd st k (fun s => match dpc s with
+        | DUnlock pend => Some (mkSd (swait s) (DJoin pend), with_lock st None)
         | _ => None end)
   | LSdJoin k =>
       on_sd st k (fun s => match dpc s with
         | DJoin (j :: rest) =>
-            if finished st j && negb (failed st j) then Some (mkSd (swait s) (DJoin rest), st) else None
+            if finished st j then Some (mkSd (swait s) (DJoin rest), st) else None
         | _ => None end)
-  | LSdRaise k =>
-      on_sd st k (fun s => match dpc s with
-        | DJoin (j :: rest) =>
-            if finished st j && failed st j then Some (mkSd (swait s) DRaised, st) else None
-        | _ => None end)
+  | LSdRaise k => None
   | LSdReturn k =>
       on_sd st k (fun s => match dpc s with
         | DCancel [] => Some (mkSd (swait s) DDone, with_lock st None)
@@ -264,12 +271,12 @@ Definition all_labels (st : state) : list label :=
   let js := seq 0 (length (jobs st)) in
   let ks := seq 0 (length (sds st)) in
   flat_map (fun j =>
-    [LSubCheck j; LSubAcquire j; LSubAppend j; LSubStart j; LSubRelease j; LSubWait j;
+    [LSubCheck j; LSubAcquire j; LSubRecheck j; LSubUnlock j; LSubAppend j; LSubStart j; LSubRelease j; LSubWait j;
      LPopen j true; LPopen j false; LExit j;
      LCommRet j AUnsat; LCommRet j ASat; LCommRet j AUnknown; LCommRet j AGarbage;
      LCommTimeout j; LCommExc j; LFinally j; LSetResult j]) js
   ++ flat_map (fun k =>
-    [LSdSet k; LSdAcquire k; LSdSnap k; LSdJoin k; LSdRaise k; LSdReturn k]
+    [LSdSet k; LSdAcquire k; LSdSnap k; LSdRelease k; LSdJoin k; LSdReturn k]
     ++ map (fun j => LSdCancel k j) js) ks.
 
 Definition is_some {A} (o : option A) : bool := match o with Some _ => true | None => false end.
@@ -279,20 +286,20 @@ Definition quiescentb (st : state) : bool := match enabled st with [] => true | 
 
 (* ---- ranking function: every step decreases it --------------------------------- *)
 Definition rank_spc (p : spc_t) : nat :=
-  match p with SCheck => 6 | SAcquire => 5 | SAppend => 4 | SStart => 3 | SRelease => 2
-             | SWait => 1 | SGot _ => 0 | SRejected => 0 end.
+  match p with SCheck => 7 | SAcquire => 6 | SRecheck => 5 | SAppend => 4 | SStart => 3 | SRelease => 2
+             | SWait => 1 | SGot _ => 0 | SUnlock => 1 | SRejected => 0 end.
 Definition rank_wpc (w : wpc_t) : nat :=
   match w with WNew => 10 | WStarted => 8 | WComm => 6 | WFinally => 4 | WSetRes => 2 | WDone => 0 end.
 Definition rank_proc (p : proc_t) : nat := match p with PRun => 1 | _ => 0 end.
 Definition rank_job (jb : job) : nat := rank_spc (spc jb) + rank_wpc (wpc jb) + rank_proc (proc jb).
 Definition pre_append (jb : job) : nat :=
-  match spc jb with SCheck | SAcquire | SAppend => 1 | _ => 0 end.
+  match spc jb with SCheck | SAcquire | SRecheck | SAppend => 1 | _ => 0 end.
 Definition sum {A} (f : A -> nat) (l : list A) : nat := fold_right (fun x a => f x + a) 0 l.
 (* phi bounds the length the registry can still reach *)
 Definition phi (st : state) : nat := length (reg st) + sum pre_append (jobs st).
 Definition rank_sd (ph : nat) (s : sd) : nat :=
   match dpc s with
-  | DSet => 5 + ph | DAcquire => 4 + ph | DSnap => 4 + ph
-  | DCancel l => 2 + length l | DJoin l => 2 + length l | DDone => 0 | DRaised => 0
+  | DSet => 6 + ph | DAcquire => 5 + ph | DSnap => 4 + ph
+  | DCancel l => 2 + length l | DUnlock l => 3 + length l | DJoin l => 2 + length l | DDone => 0
   end.
 Definition rank (st : state) : nat := sum rank_job (jobs st) + sum (rank_sd (phi st)) (sds st).
